@@ -17,6 +17,9 @@ def cgNIter : String := "min(max_iter, num_rows) if settings.terminate_cg_by_siz
 def precondSwitch : String := "settings.max_preconditioner_size.value() == 0 or self.size(-1) < settings.min_preconditioning_size.value()"
 def cgEps : String := "1e-10"
 def cgStopUpdatingAfter : String := "1e-10"
+/-- eigen-structured solves and the base `_symeig` read the SYMEIG dtype; nothing on a solve path reads the Cholesky dtype -/
+def linalgDtypeReads : List (String × String × List String) := [("KroneckerProductAddedDiagLinearOperator", "_solve", ["_linalg_dtype_symeig"]), ("LinearOperator", "_symeig", ["_linalg_dtype_symeig"])]
+
 def hookTable : List (String × List String) := [
   ("AbstractPermutationLinearOperator", ["_solve", "inverse"]),
   ("AddedDiagLinearOperator", ["_preconditioner"]),
